@@ -5,189 +5,15 @@ from units import common
 
 S = 'tonic/src/status.rs'
 
-SPEC = r'''
-// ---- independent tables (gRPC statuscodes.md / http-grpc-status-mapping.md / PROTOCOL-HTTP2.md), no tonic code ----
-pub open spec fn code_num(c: Code) -> int {
-    match c {
-        Code::Ok => 0, Code::Cancelled => 1, Code::Unknown => 2, Code::InvalidArgument => 3, Code::DeadlineExceeded => 4,
-        Code::NotFound => 5, Code::AlreadyExists => 6, Code::PermissionDenied => 7, Code::ResourceExhausted => 8,
-        Code::FailedPrecondition => 9, Code::Aborted => 10, Code::OutOfRange => 11, Code::Unimplemented => 12,
-        Code::Internal => 13, Code::Unavailable => 14, Code::DataLoss => 15, Code::Unauthenticated => 16,
-    }
-}
-pub open spec fn code_of_num(i: int) -> Code {
-    if i == 0 { Code::Ok } else if i == 1 { Code::Cancelled } else if i == 3 { Code::InvalidArgument } else if i == 4 { Code::DeadlineExceeded }
-    else if i == 5 { Code::NotFound } else if i == 6 { Code::AlreadyExists } else if i == 7 { Code::PermissionDenied }
-    else if i == 8 { Code::ResourceExhausted } else if i == 9 { Code::FailedPrecondition } else if i == 10 { Code::Aborted }
-    else if i == 11 { Code::OutOfRange } else if i == 12 { Code::Unimplemented } else if i == 13 { Code::Internal }
-    else if i == 14 { Code::Unavailable } else if i == 15 { Code::DataLoss } else if i == 16 { Code::Unauthenticated } else { Code::Unknown }
-}
-// decimal text of 0..=99 without leading zero
-pub open spec fn dec_text(n: int) -> Seq<u8> {
-    if n < 10 { seq![(48 + n) as u8] } else { seq![(48 + n / 10) as u8, (48 + n % 10) as u8] }
-}
-// the code a grpc-status value denotes: the decimal text of 0..=16, anything else is UNKNOWN
-pub open spec fn code_of_bytes(b: Seq<u8>) -> Code {
-    if b.len() == 1 && 48 <= b[0] <= 57 { code_of_num(b[0] - 48) }
-    else if b.len() == 2 && b[0] == 49 && 48 <= b[1] <= 54 { code_of_num(10 + (b[1] - 48)) }
-    else { Code::Unknown }
-}
-pub proof fn lemma_code_roundtrip(c: Code)
-    ensures code_of_bytes(dec_text(code_num(c))) == c, code_of_num(code_num(c)) == c
-{}
-// http-grpc-status-mapping.md, as quoted in the property statement
-pub open spec fn code_of_http(sc: http::StatusCode) -> Code {
-    if sc.0 == 400 { Code::Internal } else if sc.0 == 401 { Code::Unauthenticated } else if sc.0 == 403 { Code::PermissionDenied }
-    else if sc.0 == 404 { Code::Unimplemented } else if sc.0 == 429 || sc.0 == 502 || sc.0 == 503 || sc.0 == 504 { Code::Unavailable }
-    else { Code::Unknown }
-}
-// h2 error code (RFC 7540 numbering) to gRPC code, PROTOCOL-HTTP2.md "Errors"; FRAME_SIZE_ERROR(6), STREAM_CLOSED(5) and
-// HTTP_1_1_REQUIRED(13) are not named by the property statement and are left unconstrained here
-pub open spec fn h2_constrained(r: u32) -> bool { r != 5 && r != 6 && r <= 12 }
-pub open spec fn code_of_h2(r: u32) -> Code {
-    if r == 8 { Code::Cancelled } else if r == 7 { Code::Unavailable } else if r == 11 { Code::ResourceExhausted }
-    else if r == 12 { Code::PermissionDenied } else { Code::Internal }
-}
 
-// the three header names a status is spelled with
-pub open spec fn status_names(k: Seq<char>) -> bool { k == "grpc-status"@ || k == "grpc-message"@ || k == "grpc-status-details-bin"@ }
-'''
 
-REL = r'''
-// WRITING: what add_header must leave in the map (from the property: code as decimal, message percent-encoded, details
-// base64 without padding, user metadata minus reserved names, everything else untouched)
-pub open spec fn written(s: Status, pre: HMap, post: HMap) -> bool {
-    &&& post.contains_key("grpc-status"@) && post["grpc-status"@] == seq![dec_text(code_num(s.code))]
-    &&& s.message@.len() > 0 ==> post.contains_key("grpc-message"@) && post["grpc-message"@] == seq![pct_enc(utf8(s.message@))]
-    &&& s.details@.len() > 0 ==> post.contains_key("grpc-status-details-bin"@) && post["grpc-status-details-bin"@] == seq![b64_enc(false, s.details@)]
-    &&& forall|k: Seq<char>| !(k == "grpc-status"@) && !(k == "grpc-message"@ && s.message@.len() > 0) && !(k == "grpc-status-details-bin"@ && s.details@.len() > 0) ==>
-            (#[trigger] post.contains_key(k) <==> ((s.metadata.headers@.contains_key(k) && !is_reserved(k)) || pre.contains_key(k)))
-            && (post.contains_key(k) ==> post[k] == (if s.metadata.headers@.contains_key(k) && !is_reserved(k) { s.metadata.headers@[k] } else { pre[k] }))
-}
-// READING: total; what from_header_map must answer for ANY header map
-pub open spec fn msg_ok(h: HMap) -> bool { !h.contains_key("grpc-message"@) || utf8_valid(pct_dec(h["grpc-message"@][0])) }
-pub open spec fn det_ok(h: HMap) -> bool { !h.contains_key("grpc-status-details-bin"@) || b64_dec(h["grpc-status-details-bin"@][0]) is Some }
-pub open spec fn read(h: HMap, r: Option<Status>) -> bool {
-    &&& r is None <==> !h.contains_key("grpc-status"@)
-    &&& r matches Some(st) ==> {
-        &&& msg_ok(h) && det_ok(h) ==> {
-            &&& st.code == code_of_bytes(h["grpc-status"@][0])
-            &&& st.message@ == (if h.contains_key("grpc-message"@) { utf8_str(pct_dec(h["grpc-message"@][0])) } else { Seq::<char>::empty() })
-            &&& st.details@ == (if h.contains_key("grpc-status-details-bin"@) { b64_dec(h["grpc-status-details-bin"@][0])->Some_0 } else { Seq::<u8>::empty() })
-        }
-        &&& !(msg_ok(h) && det_ok(h)) ==> st.code == Code::Unknown
-        &&& st.metadata.headers@ =~= h.remove("grpc-status"@).remove("grpc-message"@).remove("grpc-status-details-bin"@)
-    }
-}
-// ROUND TRIP (C04): a status written into an empty map and read back is the same status; its metadata comes back minus
-// the reserved names. (Metadata that itself uses one of the three status header names is outside this lemma.)
-pub proof fn lemma_status_roundtrip(s: Status, h: HMap, r: Option<Status>)
-    requires
-        written(s, Map::<Seq<char>, Seq<Seq<u8>>>::empty(), h), read(h, r),
-        forall|k: Seq<char>| status_names(k) ==> !s.metadata.headers@.contains_key(k),
-    ensures
-        r is Some, r->Some_0.code == s.code, r->Some_0.message@ == s.message@, r->Some_0.details@ == s.details@,
-        sanitized_of(r->Some_0.metadata.headers@, s.metadata.headers@),
-{
-    broadcast use axiom_pct_roundtrip, axiom_b64_roundtrip;
-    lemma_names_distinct();
-    lemma_utf8_roundtrip(s.message@);
-    lemma_code_roundtrip(s.code);
-    let st = r->Some_0;
-    assert(status_names("grpc-status-details-bin"@) && status_names("grpc-message"@) && status_names("grpc-status"@));
-    assert(!h.contains_key("grpc-message"@) <==> s.message@.len() == 0);
-    assert(!h.contains_key("grpc-status-details-bin"@) <==> s.details@.len() == 0);
-    assert(s.message@.len() == 0 ==> s.message@ =~= Seq::<char>::empty());
-    assert(s.details@.len() == 0 ==> s.details@ =~= Seq::<u8>::empty());
-    let rm = st.metadata.headers@;
-    let sm = s.metadata.headers@;
-    assert forall|k: Seq<char>| #[trigger] rm.contains_key(k) <==> (sm.contains_key(k) && !is_reserved(k)) by {
-        if status_names(k) { assert(!sm.contains_key(k)); assert(!rm.contains_key(k)); }
-        else { assert(rm.contains_key(k) <==> h.contains_key(k)); }
-    }
-    assert forall|k: Seq<char>| #[trigger] rm.contains_key(k) implies rm[k] == sm[k] by {
-        assert(!status_names(k));
-        assert(h.contains_key(k));
-    }
-}
-'''
-
-SHIMS = r'''
-// A-h2-01: h2::Reason is a u32 newtype with the RFC 7540 constants; h2::Error::reason() is the reset reason if any
-#[derive(PartialEq, Eq, Clone, Copy, Debug, Structural)]
-pub struct Reason(pub u32);
-impl Reason {
-    pub const NO_ERROR: Reason = Reason(0);
-    pub const PROTOCOL_ERROR: Reason = Reason(1);
-    pub const INTERNAL_ERROR: Reason = Reason(2);
-    pub const FLOW_CONTROL_ERROR: Reason = Reason(3);
-    pub const SETTINGS_TIMEOUT: Reason = Reason(4);
-    pub const STREAM_CLOSED: Reason = Reason(5);
-    pub const FRAME_SIZE_ERROR: Reason = Reason(6);
-    pub const REFUSED_STREAM: Reason = Reason(7);
-    pub const CANCEL: Reason = Reason(8);
-    pub const COMPRESSION_ERROR: Reason = Reason(9);
-    pub const CONNECT_ERROR: Reason = Reason(10);
-    pub const ENHANCE_YOUR_CALM: Reason = Reason(11);
-    pub const INADEQUATE_SECURITY: Reason = Reason(12);
-    pub const HTTP_1_1_REQUIRED: Reason = Reason(13);
-}
-pub mod h2 {
-    pub use crate::Reason;
-    pub struct Error { pub reason: Option<Reason> }
-    impl Error {
-        pub fn reason(&self) -> (r: Option<Reason>) ensures r == self.reason { self.reason }
-    }
-    impl vstd::std_specs::convert::FromSpecImpl<Reason> for Error {
-        open spec fn obeys_from_spec() -> bool { true }
-        open spec fn from_spec(v: Reason) -> Self { Error { reason: Some(v) } }
-    }
-    impl From<Reason> for Error { fn from(t: Reason) -> (r: Error) { Error { reason: Some(t) } } }
-}
-pub struct SourceBox { pub id: Ghost<int> }
-// A-core-04: B::default() is some fixed value of B (the empty body)
-pub trait DefaultBody: Sized { spec fn default_spec() -> Self; fn default() -> (r: Self) ensures r == Self::default_spec(); }
-impl HasBytes for Vec<u8> { open spec fn bytes_view(&self) -> Seq<u8> { self@ } }
-impl Bytes {
-    // A-bytes-22: Bytes::copy_from_slice / From<Vec<u8>> keep the bytes
-    #[verifier::external_body]
-    pub fn copy_from_slice(s: &[u8]) -> (r: Bytes) ensures r@ == s@ { unimplemented!() }
-}
-impl vstd::std_specs::convert::FromSpecImpl<Vec<u8>> for Bytes {
-    open spec fn obeys_from_spec() -> bool { true }
-    open spec fn from_spec(v: Vec<u8>) -> Self { Bytes { v } }
-}
-impl From<Vec<u8>> for Bytes { fn from(v: Vec<u8>) -> (r: Bytes) { Bytes { v } } }
-// A-bytes-23: &bytes[..] is the whole content
-impl vstd::std_specs::core::IndexSpecImpl<core::ops::RangeFull> for Bytes {
-    open spec fn index_req(&self, idx: &core::ops::RangeFull) -> bool { true }
-}
-impl core::ops::Index<core::ops::RangeFull> for Bytes {
-    type Output = [u8];
-    #[verifier::external_body]
-    fn index(&self, r: core::ops::RangeFull) -> (o: &[u8]) ensures o@ == self@ { unimplemented!() }
-}
-// A-core-03: impl Into<String> for the message arguments (String, &str) keeps the text
-pub trait IntoString { spec fn text(&self) -> Seq<char>; fn into(self) -> (r: String) ensures r@ == self.text(); }
-impl IntoString for String { open spec fn text(&self) -> Seq<char> { self@ } fn into(self) -> (r: String) { self } }
-impl<'a> IntoString for &'a str { open spec fn text(&self) -> Seq<char> { self@ }
-    #[verifier::external_body] fn into(self) -> (r: String) { unimplemented!() } }
-// A-pct-03: percent_encode is called with tonic's ENCODING_SET (CONTROLS + space " # % < > ` ? { }); that this set escapes every
-// byte HeaderValue rejects (and '%') is checked on the real constant by the complete Kani harness kx::encoding_set
-pub const ENCODING_SET: &'static AsciiSet = &AsciiSet { x: 0 };
-pub exec const GRPC_CONTENT_TYPE: HeaderValue ensures GRPC_CONTENT_TYPE@ == ascii_bytes("application/grpc"@) { HeaderValue::from_static("application/grpc") }
-'''
 
 
 def build():
     u = Unit('status', ['C04'])
     common.http_base(u)
     common.metadata_core(u)
-    u.item(S, 'enum', 'Code', derives='Clone, Copy, PartialEq, Eq, Structural')
-    u.raw(SHIMS)
-    u.raw(SPEC)
-    u.item(S, 'struct', 'Status', edits=[lambda t: t.sub_code('R12', r"Option<Arc<dyn Error \+ Send \+ Sync \+ 'static>>", 'Option<SourceBox>')])
-
+    common.status_decls(u)
     u._emit('impl Code {'); u._open_header = 'impl Code {'
     u.fn(S, 'from_i32', within='impl Code', nth=0, ensures=[Clause('T_from_i32_is_the_table', 'r == code_of_num(i as int)')])
     u.fn(S, 'parse_err', within='impl Code', ensures=[Clause('unknown', 'r == Code::Unknown')])
@@ -196,21 +22,11 @@ def build():
          body_start='        proof { reveal_strlit("0"); reveal_strlit("1"); reveal_strlit("2"); reveal_strlit("3"); reveal_strlit("4"); reveal_strlit("5"); reveal_strlit("6"); reveal_strlit("7"); reveal_strlit("8"); reveal_strlit("9"); reveal_strlit("10"); reveal_strlit("11"); reveal_strlit("12"); reveal_strlit("13"); reveal_strlit("14"); reveal_strlit("15"); reveal_strlit("16"); }',
          ensures=[Clause('T_to_header_value_is_decimal_code', 'r@ =~= dec_text(code_num(self))')])
     u.close('}')
-    u.raw('''// A-fmt-10: Debug for Status is diagnostics only (needed by Result::unwrap's bound)
-#[verifier::external]
-impl core::fmt::Debug for Status { fn fmt(&self, f: &mut core::fmt::Formatter<'_>) -> core::fmt::Result { unimplemented!() } }
-''')
-    u.raw(REL)
     u.fn(S, 'invalid_header_value_byte', sig_edits=[lambda t: t.sub_code('R12', r'<Error: fmt::Display>', '<Error>')],
          ensures=[Clause('internal', 'r.code == Code::Internal')])
     u._emit('impl Status {'); u._open_header = 'impl Status {'
-    for cname, variant in [('ok', 'Ok'), ('cancelled', 'Cancelled'), ('unknown', 'Unknown'), ('invalid_argument', 'InvalidArgument'),
-                           ('deadline_exceeded', 'DeadlineExceeded'), ('not_found', 'NotFound'), ('already_exists', 'AlreadyExists'),
-                           ('permission_denied', 'PermissionDenied'), ('resource_exhausted', 'ResourceExhausted'),
-                           ('failed_precondition', 'FailedPrecondition'), ('aborted', 'Aborted'), ('out_of_range', 'OutOfRange'),
-                           ('unimplemented', 'Unimplemented'), ('internal', 'Internal'), ('unavailable', 'Unavailable'),
-                           ('data_loss', 'DataLoss'), ('unauthenticated', 'Unauthenticated')]:
-        u.fn(S, cname, within='impl Status', nth=0, ensures=[Clause('code', 'r.code == Code::%s && r.details@.len() == 0 && r.metadata.headers@ == Map::<Seq<char>, Seq<Seq<u8>>>::empty()' % variant)])
+    for cname, variant in common.CTORS:
+        u.fn(S, cname, within='impl Status', nth=0, ensures=[Clause('code', common.CTOR % variant)])
     u.fn(S, 'new', within='impl Status', nth=0, ensures=[Clause('fields', 'r.code == code && r.details@.len() == 0 && r.metadata.headers@ == Map::<Seq<char>, Seq<Seq<u8>>>::empty()')])
     u.fn(S, 'with_details_and_metadata', within='impl Status', ensures=[Clause('fields', 'r.code == code && r.details == details && r.metadata == metadata')])
     u.fn(S, 'with_details', within='impl Status', ensures=[Clause('fields', 'r.code == code && r.details == details && r.metadata.headers@ == Map::<Seq<char>, Seq<Seq<u8>>>::empty()')])
@@ -222,27 +38,20 @@ impl core::fmt::Debug for Status { fn fmt(&self, f: &mut core::fmt::Formatter<'_
         u.exec_const(S, cn, ensures=[Clause('name', 'Self::%s@ == "%s"@' % (cn, lit))])
     u.fn(S, 'add_header', within='impl Status',
          body_start='        broadcast use axiom_pct_legal, axiom_b64_legal; proof { lemma_names_distinct(); }',
-         ensures=[
-             Clause('A1_never_fails_values_always_legal', 'r is Ok', ['C04', 'C03']),
-             Clause('A2_written', 'written(*self, old(header_map)@, final(header_map)@)', ['C04', 'C03', 'C08', 'C02']),
-         ])
+         ensures=[Clause(*c) for c in common.CONTRACTS['add_header']])
     u.fn(S, 'to_header_map', within='impl Status',
-         ensures=[Clause('M1_written_from_empty', 'r matches Ok(h) && written(*self, Map::<Seq<char>, Seq<Seq<u8>>>::empty(), h@)', ['C04', 'C03', 'C02'])])
+         ensures=[Clause(*c) for c in common.CONTRACTS['to_header_map']])
     u.fn(S, 'from_header_map', within='impl Status',
          body_start='        proof { lemma_names_distinct(); }',
          closures={0: dict(params='cow: CowS', ret='(x: String)', ensures=['x@ == cow.s@']),
                    1: dict(params='e: Vec<u8>', ret='(x: Bytes)', ensures=['x@ == e@'])},
-         ensures=[Clause('R1_total_and_exact', 'read(header_map@, r)', ['C04', 'C02'])])
+         ensures=[Clause(*c) for c in common.CONTRACTS['from_header_map']])
     u.fn(S, 'into_http', within='impl Status',
          body_start='        proof { lemma_names_distinct(); }',
          sig_edits=[lambda t: t.sub_code('R12', r'<B: Default>', '<B: DefaultBody>')],
          hints=[('after', 'self.add_header(response.headers_mut()).unwrap();',
                  'proof { assert(is_reserved("content-type"@)); assert("content-type"@ != "grpc-status"@ && "content-type"@ != "grpc-message"@ && "content-type"@ != "grpc-status-details-bin"@); assert(response.headers@.contains_key("content-type"@)); }')],
-         ensures=[
-             Clause('H1_trailers_only_response_is_200_grpc', 'r.status == http::StatusCode::OK && r.headers@.contains_key("content-type"@) && r.headers@["content-type"@] == seq![ascii_bytes("application/grpc"@)]', ['C03', 'C04', 'C12']),
-             Clause('H2_carries_exactly_this_status', 'written(self, Map::<Seq<char>, Seq<Seq<u8>>>::empty().insert("content-type"@, seq![ascii_bytes("application/grpc"@)]), r.headers@)', ['C03', 'C04', 'C12', 'C02']),
-             Clause('H3_no_body', 'r.body == B::default_spec()', ['C03', 'C12']),
-         ])
+         ensures=[Clause(*c) for c in common.CONTRACTS['into_http']])
     u.fn(S, 'code_from_h2', within='impl Status',
          ensures=[
              Clause('T_h2_reset_table', 'err.reason is Some && h2_constrained(err.reason->Some_0.0) ==> r == code_of_h2(err.reason->Some_0.0)'),
@@ -252,18 +61,5 @@ impl core::fmt::Debug for Status { fn fmt(&self, f: &mut core::fmt::Formatter<'_
          ensures=[Clause('T_to_h2', 'r.reason == Some(if self.code == Code::Cancelled { h2::Reason::CANCEL } else { h2::Reason::INTERNAL_ERROR })')])
     u.close('}')
     u.fn(S, 'infer_grpc_status',
-         ensures=[
-             Clause('I1_status_from_trailers_wins',
-                    '''trailers is Some && trailers->Some_0@.contains_key("grpc-status"@) ==> match r {
-                Ok(()) => msg_ok(trailers->Some_0@) && det_ok(trailers->Some_0@) && code_of_bytes(trailers->Some_0@["grpc-status"@][0]) == Code::Ok,
-                Err(Some(st)) => read(trailers->Some_0@, Some(st)) && st.code != Code::Ok,
-                Err(None) => false,
-            }''', ['C04', 'C02']),
-             Clause('I2_http_status_table',
-                    '''(trailers is None || !trailers->Some_0@.contains_key("grpc-status"@)) ==> match r {
-                Ok(()) => false,
-                Err(None) => status_code.0 == 200,
-                Err(Some(st)) => status_code.0 != 200 && st.code == code_of_http(status_code),
-            }''', ['C04']),
-         ])
+         ensures=[Clause(*c) for c in common.CONTRACTS['infer_grpc_status']])
     return u
